@@ -767,6 +767,13 @@ class HttpWorld:
         # client input: next item once the previous one was consumed
         for c in self.convs:
             if c['state'] == 'live' and c['feed'] and not c['client_sock'].inq and not c['client_sock'].closed:
+                nxt = c['feed'][0]
+                if isinstance(nxt, (list, tuple)) and len(nxt) == 3 and nxt[0] == 'at':
+                    # ('at', k, item): not before iteration k (lets earlier output pile up first)
+                    if self.k < c['arrive'] + nxt[1]:
+                        progressed = True
+                        continue
+                    c['feed'][0] = nxt[2]
                 c['client_sock'].feed(_io_item(c['feed'].pop(0)))
                 progressed = True
         out = []
